@@ -9,6 +9,7 @@
 #include "common/verif.hpp"
 #include "common/sched.hpp"
 #include <frg/qs.hpp>
+#include <functional>
 #include <map>
 #include <set>
 
@@ -32,7 +33,10 @@ static int g_running_agent[8];           // per worker/thread slot: agent whose 
 struct Node {
 	frg::qs_node qn;
 	int id; int agent;
+	bool rearm; // the callback registers a fresh node with the same agent (from inside run()), as a periodic reclamation task would
 };
+static std::function<void(int)> g_rearm;   // set by the driver: await_barrier(new node) on the given agent
+static int g_rearm_count = 0;
 struct NodeRef { int reg; struct Node *node; };
 static std::map<frg::qs_node *, NodeRef> g_node_ids;  // live registered nodes -> (reg index, enclosing object)
 
@@ -52,9 +56,12 @@ static void on_grace(frg::qs_node *qn) {
 	if(g_running_agent[slot] != rg.agent) g_log->problems.push_back(strf("S1b|callback of a node registered by agent %d runs %s", rg.agent, g_running_agent[slot] < 0 ? "outside any run()" : "inside another agent's run()"));
 	g_log->note(strf("cb(n%d)@%llu", rg.node, (unsigned long long)t));
 	g_node_ids.erase(it);
+	bool rearm = n->rearm; int agent = rg.agent;
 	// the library must not touch the node any more: give the memory back right now (ASan observes any later access)
 	memset((void *)n, 0xEE, sizeof(Node));
 	free(n);
+	// (rg is not used below: the registration made here may reallocate the log)
+	if(rearm && g_rearm) { g_rearm_count++; g_rearm(agent); }
 }
 
 // operations, logged at the API boundary. M is the domain's mutex type.
@@ -82,15 +89,15 @@ struct Ops {
 	}
 	void qs(int i) { uint64_t c = now(); ag[i].ag->quiescent_state(); uint64_t r = now(); g_log->qs[i].push_back({c, r}); g_log->note(strf("a%d.qs", i)); }
 	void barrier(int i) { sched::g_unscheduled_spins = 0; uint64_t c = now(); ag[i].ag->quiescent_barrier(); uint64_t r = now(); g_log->qb[i].push_back({c, r}); g_log->note(strf("a%d.barrier", i)); }
-	void await(int i) {
-		Node *n = (Node *)malloc(sizeof(Node)); new (n) Node(); n->id = next_node++; n->agent = i; n->qn.on_grace_period = on_grace;
+	void await(int i, bool rearm = false) {
+		Node *n = (Node *)malloc(sizeof(Node)); new (n) Node(); n->id = next_node++; n->agent = i; n->rearm = rearm; n->qn.on_grace_period = on_grace;
 		uint64_t c = now();
 		g_node_ids[&n->qn] = {(int)g_log->regs.size(), n};
 		g_log->regs.push_back({i, n->id, c, 0});
 		size_t ri = g_log->regs.size() - 1;
 		ag[i].ag->await_barrier(&n->qn);
 		g_log->regs[ri].r = now(); ag[i].pending++;
-		g_log->note(strf("a%d.await(n%d)", i, n->id));
+		g_log->note(strf("a%d.await(n%d%s)", i, n->id, rearm ? ",re-arming" : ""));
 	}
 	void run(int i) {
 		int slot = sched::t_me >= 0 ? sched::t_me : 0;
@@ -157,6 +164,7 @@ static void e1_case(const char *mode, long long idx, int nagents, const std::vec
 	auto *dom = new frg::qs_domain<SeqMx>();
 	Ops<SeqMx> o; o.dom = dom; o.ag.resize(nagents);
 	admissible = true;
+	g_rearm = [&](int a) { o.await(a, false); }; g_rearm_count = 0;
 	bool ok = guarded("C11", [&] {
 		for(int i = 0; i < nagents; i++) { o.ag[i].id = i; o.create_agent(i); }
 		for(int code : opsq) {
@@ -169,17 +177,19 @@ static void e1_case(const char *mode, long long idx, int nagents, const std::vec
 			case 3: if(!A.online) { admissible = false; return; } o.await(a); break;
 			case 4: o.run(a); break;
 			case 5: { if(!A.online) { admissible = false; return; } int on = 0; for(auto &x : o.ag) on += x.online; if(on != 1) { admissible = false; return; } o.barrier(a); break; }
+			case 6: if(!A.online) { admissible = false; return; } o.await(a, true); break; // the callback registers another node from inside run()
 			}
 		}
 		// L: bounded progress. Every agent with pending callbacks goes online; then at most DRAIN_ROUNDS rounds of
 		// "every online agent reports a quiescent state, every agent with pending callbacks calls run()".
 		for(int i = 0; i < nagents; i++) if(!o.ag[i].online && o.pending_of(i)) o.online(i);
-		int rounds = 0;
+		int rounds = 0, budget = DRAIN_ROUNDS, seen_rearms = g_rearm_count;
 		auto all_done = [&] { for(auto &rg : L.regs) if(!rg.cb) return false; return true; };
-		while(!all_done() && rounds < DRAIN_ROUNDS) {
+		while(!all_done() && rounds < budget) {
 			rounds++;
 			for(int i = 0; i < nagents; i++) if(o.ag[i].online) o.qs(i);
 			for(int i = 0; i < nagents; i++) if(o.pending_of(i)) o.run(i);
+			if(g_rearm_count != seen_rearms) { seen_rearms = g_rearm_count; budget = rounds + DRAIN_ROUNDS; } // a registration made by a callback gets its own rounds
 		}
 		if(!all_done()) { case_detail("%s", L.text.substr(0, 3900).c_str()); violation("C11:qs:L-grace-period-lost", strf("a registered callback was not invoked within %d rounds in which every online agent reported a quiescent state and the registering agent called run() [%s]", DRAIN_ROUNDS, L.text.substr(0, 600).c_str())); }
 		count(strf("drain_rounds_needed_%d", rounds));
@@ -191,13 +201,13 @@ static void e1_case(const char *mode, long long idx, int nagents, const std::vec
 	g_node_ids.clear();
 	for(auto &a : o.ag) delete a.ag;
 	delete dom;
-	g_log = nullptr;
+	g_log = nullptr; g_rearm = nullptr;
 }
 
 static void e1_exhaustive(int nagents, unsigned depth) {
 	std::string mode = strf("e1:exh:%dagents", nagents);
 	if(!want_mode(mode.c_str())) return;
-	const int NOPS = 6 * nagents;
+	const int NOPS = 7 * nagents;
 	uint64_t total = 1; for(unsigned i = 0; i < depth; i++) total *= NOPS;
 	for(uint64_t x = opt.shard; x < total; x += opt.nshards) {
 		if(!want_case(x)) continue;
@@ -207,7 +217,7 @@ static void e1_exhaustive(int nagents, unsigned depth) {
 		e1_case(mode.c_str(), x, nagents, ops, adm);
 		if(adm) { note_distinct(mix(hash_str(mode), x)); count("e1_admissible_sequences"); }
 	}
-	rec.notes[mode] = strf("all admissible sequences of %u whole operations {online, offline, quiescent_state, await_barrier(new node), run, quiescent_barrier(single online agent)} over %d agents, each followed by the bounded-progress drain", depth, nagents);
+	rec.notes[mode] = strf("all admissible sequences of %u whole operations {online, offline, quiescent_state, await_barrier(new node), run, quiescent_barrier(single online agent), await_barrier(node whose callback registers another node)} over %d agents, each followed by the bounded-progress drain", depth, nagents);
 }
 
 static void e1_random(uint64_t n, unsigned maxlen) {
@@ -224,7 +234,7 @@ static void e1_random(uint64_t n, unsigned maxlen) {
 			int a = r.below(na); int op;
 			int cnt_on = 0; for(bool b : on) cnt_on += b;
 			if(!on[a]) op = r.chance(1, 2) ? 0 : 4;
-			else { int z = r.below(20); op = z < 2 ? 1 : z < 10 ? 2 : z < 14 ? 3 : z < 19 ? 4 : (cnt_on == 1 ? 5 : 2); }
+			else { int z = r.below(20); op = z < 2 ? 1 : z < 10 ? 2 : z < 13 ? 3 : z < 14 ? 6 : z < 19 ? 4 : (cnt_on == 1 ? 5 : 2); }
 			if(op == 0) on[a] = true;
 			if(op == 1) on[a] = false; // (a refused offline keeps the agent online; handled below by re-checking admissibility)
 			ops.push_back(op * na + a);
